@@ -268,7 +268,9 @@ def run(ctx):
                 if not okE:
                     r4.fail("parse-ok-arm", "cannot resolve the Ok arm of parse", pc.where())
                     continue
-                wit = h.uncrossed_path([d_ for _, d_ in okE], [gets[0].block] + hh, edges=deny | icpt, blocks=inf_blocks)
+                # ... unless the client switched routing inference off (SET SERVER ROLE TO 'primary'|'replica'|'any'): the role then stays what it set
+                _, qpe_false, _ = call_bool_edges(h, "pgcat::query_router::QueryRouter::query_parser_enabled", switches_cache=hsw)
+                wit = h.uncrossed_path([d_ for _, d_ in okE], [gets[0].block] + hh, edges=deny | icpt | qpe_false, blocks=inf_blocks)
                 r4.check(wit is None, "infer-after-parse#%d" % outer_parse.index(pc), "a successfully parsed initial message always reaches infer before checkout / next message",
                          "a parsed initial message can reach the checkout without infer (role of the previous transaction is reused)", pc.where(), wit and h.describe_path(wit))
 
